@@ -30,3 +30,8 @@ CASES = [
     t("scalar products with swapped operands", D,
       "            self.F4n[0] = numpy.dot(d[3,:],d[2,:])*numpy.dot(d[1,:],d[0,:])", "            self.F4n[0] = numpy.dot(d[0,:],d[1,:])*numpy.dot(d[2,:],d[3,:])"),
 ]
+
+CASES += [
+    {"name": "self.side again (the repaired defect)", "kind": "mutant", "rule": "C12-A", "edits": [
+        ("quantarhei/spectroscopy/diagramatics.py", "        return self.sides[n], self.transitions[n]", "        return self.side[n], self.transitions[n]", 1)]},
+]
